@@ -2,7 +2,7 @@
    Full-strength statement: C10 (see DESIGN.md section 7) (Cluster/Statements.v). Proved so far: the theorems below; what is
    not yet proved is decided on every run by the lock-step co-simulation (model = implementation on every
    explored schedule) together with the monitors run on the implementation's own observations. *)
-From RaftV Require Import Cluster.Statements Proofs.RVSpec Proofs.AESpec Proofs.SnapSpec.
+From RaftV Require Import Cluster.Statements Proofs.RVSpec Proofs.AESpec Proofs.SnapSpec Proofs.ReadSpec.
 Open Scope N_scope.
 
 (* becomeFollower (every term change, every step-down) never touches the commit index, the applied index, the
@@ -22,3 +22,15 @@ Print Assumptions C10_restore_of_snapshot_is_identity.
 
 Example C10_nonvacuous : fsm_unsnap (fsm_snap 5 [7; 8; 9]) = [7; 8; 9].
 Proof. reflexivity. Qed.
+
+(* takeSnapshot, for every node state (Snapshot excluded from Apply: fix D8): a snapshot it adds is labelled with the
+   index and term of the log entry at the applied index, contains the state machine exactly as it is at that point,
+   and carries the committed configuration, whose index is not beyond the applied index. *)
+Theorem C10_local_snapshot_label : forall n s,
+  In s (n_snaps (lp_snapshot n)) ->
+  In s (n_snaps n) \/
+  (s_data s = fsm_snap (n_pad n) (n_fsm n) /\
+   n_cconf n = Some (s_conf s) /\ c_index (s_conf s) <= n_applied n /\
+   exists e, log_get (n_log n) (n_applied n) = Some e /\ s_index s = e_index e /\ s_term s = e_term e).
+Proof. exact lp_snapshot_label. Qed.
+Print Assumptions C10_local_snapshot_label.
